@@ -381,6 +381,7 @@ struct World
     std::unique_ptr<TState, TStateDeleter> tstate;
     void table_check(const std::string& op, int64_t touched);
     void table_sync_from_db();  // atomic profile: rebuild actor T's row/list model from the library itself
+    void cross_rebuild_l_model(const std::string& op);
     void open_table_library();
     void close_table_library();
     bool reload_table_library();
